@@ -41,6 +41,7 @@ type LifeOpts struct {
 	Sponsor   bool  // offer sponsored stores (payer P)
 	NoOwnerPA bool  // the owner DID never sets a payment address (refunds are parked for the DID)
 	NoPlain   bool  // do not offer owner-paid stores
+	SuperS1   bool  // provider S1 holds the super role (needs Cfg with two validators and a small capacity threshold)
 	RemoveCap bool  // offer RemoveVstorage / AddVstorage
 	Drain     bool  // offer "provider sends away all funds" (debt creation)
 	Mid       bool  // offer midpoint jumps
@@ -58,7 +59,13 @@ func lifeRoots(o LifeOpts) []engine.Root {
 		if o.NoOwnerPA {
 			owners = []int{world.W, world.P}
 		}
-		return SetupBase(w, owners, []int{world.G}, o.SPs, o.Capacity)
+		st := SetupBase(w, owners, []int{world.G}, o.SPs, o.Capacity)
+		if o.SuperS1 {
+			v := sdk.ValAddress(w.A(world.V).Addr).String()
+			st = append(st, fixed(Tx("delegate", "delegate(S1,setup)", stakingDelegate(w, world.S1, v, 200_000_000))),
+				fixed(Tx("reset", "reset(S1,super,setup)", &nodetypes.MsgReset{Creator: w.A(world.S1).S(), Status: FullStatus, Validator: v})))
+		}
+		return st
 	}
 	size := o.Sizes[len(o.Sizes)-1]
 	for _, name := range o.Roots {
